@@ -6,6 +6,8 @@ CONSTANTS
   MaxTicks = 1
   MaxCrashes = 0
   MaxOps = 2
+  MaxOps2 = 1
+  FirstSess = "c1"
   RunEnabled = TRUE
   Ops = {"submit", "cancel", "release", "status"}
   FindUnitHoldsRLock = FALSE
